@@ -102,6 +102,34 @@ fn deep(cfg: &Config, total: &mut Report, thorough: bool) {
 			}
 		}
 	}
+	// the flat valid shapes (nesting <= 2, one lexical element repeated 10^6 times) once more in a child
+	// process with an ordinary 8 MiB stack: a process that dies on a valid document does not accept it
+	{
+		let mut rep = Report::new();
+		for (ki, k) in DEEP_KINDS.iter().enumerate() {
+			if ki < 14 {
+				continue;
+			}
+			let depth = 1_000_000usize;
+			let doc = gen::deep_doc(*k, depth);
+			if !Reader::new().read(&doc, false).accepts(Opts::STRICT) {
+				continue;
+			}
+			rep.evaluations += 1;
+			rep.distinct_by_construction(1);
+			rep.count("flat_valid_documents_in_an_ordinary_stack_child", 1);
+			match super::c03::run_child(ki, depth, 8 << 20, std::time::Duration::from_secs(300)) {
+				Ok((Some(0), _, _)) => (),
+				Ok((code, signal, out)) => rep.violation(
+					"C01:dies-on-valid-document",
+					format!("{:?} with {} repetitions (a valid document nested 2 levels): the parsing process ended with exit code {:?} / signal {:?}: {}", k, depth, code, signal, out.lines().last().unwrap_or("")),
+					json!({"sub": "deep", "kind": format!("{:?}", k), "depth": depth}),
+				),
+				Err(e) => rep.inconclusive.push(format!("flat document child for {:?}: {}", k, e)),
+			}
+		}
+		total.merge(rep);
+	}
 	let jobs = std::sync::Arc::new(jobs);
 	let j2 = jobs.clone();
 	let rep = crate::monitor::parallel(cfg.threads.min(4), jobs.len(), move |i| {
